@@ -5,7 +5,9 @@
 use swc_ecma_ast::*;
 
 use crate::{
-    transform::operand_handler::{DefaultOperandHandler, OperandHandler},
+    transform::operand_handler::{
+        is_literal_or_literal_concat, DefaultOperandHandler, OperandHandler,
+    },
     visitor::{
         csi_methods::CsiMethods,
         ident_provider::{IdentKind, IdentProvider},
@@ -97,5 +99,7 @@ fn prepare_replace_expressions_in_binary(
 }
 
 fn must_replace_binary_expression(arguments: &[ExprOrSpread]) -> bool {
-    arguments.iter().any(|arg| !arg.expr.is_lit())
+    arguments
+        .iter()
+        .any(|arg| !is_literal_or_literal_concat(&arg.expr))
 }
